@@ -456,7 +456,21 @@ def run_pathline(job):
     nev = [0]
     try:
         u, L = build_flow(a["fam"], a["axes"], envf)
-        ts, pos = pathlines.get_pathline(xf_arg, budgeted(u, nev), L, lo, hi, a["max_strain"], regular_steps=a["steps"])
+        # call-history classes (the statement is about EVERY call, whatever was called before it, and the documented
+        # solver keyword arguments are part of the interface): plain / a coarse "preview" call with loose solver
+        # options on the same inputs first, its result discarded / the judged call itself with tighter tolerances
+        form = tid % 4
+        kw = {}
+        if form == 1:
+            try:
+                pathlines.get_pathline(xf_arg, budgeted(u, [0]), L, lo, hi, a["max_strain"], regular_steps=a["steps"], method="RK23", rtol=0.2, atol=0.05 * float(np.max(hi - lo)))
+            except BaseException as ex:  # noqa: BLE001 - the preview is not judged
+                if isinstance(ex, (KeyboardInterrupt, SystemExit, MemoryError)):
+                    raise
+        elif form == 2:
+            kw = dict(rtol=1e-8, atol=1e-10 * float(np.max(hi - lo)))
+        info["call_form"] = ("plain", "after-coarse-preview", "tight-tolerances", "plain")[form]
+        ts, pos = pathlines.get_pathline(xf_arg, budgeted(u, nev), L, lo, hi, a["max_strain"], regular_steps=a["steps"], **kw)
     except NoReturn as ex:
         ev[0]["out"] = "NoReturn"
         info["exc"] = repr(ex)
